@@ -26,7 +26,7 @@ CHECKS = {
     'C16': ('stop transcript vs. model per connected track output, also inside a failed start during which a configured track output logged on; link-time thread monitor (create/join exactly once, none alive after stop or failed start); heap and file-descriptor conservation over six identical sessions (ASan allocator statistics, LSan); idempotent stop/start (incl. the auto-flush period of the running session); two probe sessions (normal mode: per-node transcripts, snapshots, return values; low-level debug mode: the bytes written, i.e. packet boundaries and sequence numbers) as sessions k, k+1 after sessions of every kind (incl. another configuration of the same node tree) vs. the same two sessions in a fresh process',
             'pthread_create/join interposed with ld --wrap; __sanitizer_get_current_allocated_bytes; decoded message lists compared per node',
             'runtime monitoring: lifecycle monitors (threads, heap, transcript, session equivalence) + ASan/LSan'),
-    'C19': ('per occupancy report of SecAck / non-SecAck boards the decoded wire at the next quiescent point without any flush step: exactly one mirror with identical number/payload (packets with several reports from several nodes, malformed last message), none for boards without feature 0x03>0 (absent boards, address reuse, re-login, an earlier session of the same process with the opposite SecAck setting); stalled or budget-blocked board: mirrors owed and delivered in order exactly once after release',
+    'C19': ('per occupancy report of SecAck / non-SecAck boards the decoded wire at the next quiescent point without any flush step: exactly one mirror with identical number/payload (packets with several reports from several nodes, malformed last message, the application reading and freeing the queue while the receiver is parked inside the report), none for boards without feature 0x03>0 (absent boards, address reuse, re-login, an earlier session of the same process with the opposite SecAck setting); stalled or budget-blocked board: mirrors owed and delivered in order exactly once after release',
             'a report counts from the quiescent point after it was fed; known finding: position mirror lacks the address bytes',
             'runtime monitoring: per-event wire oracle at quiescent points + ASan/UBSan'),
     'C20': ('order constraints and multiset equality over the decoded downlink transcript of a start and of bidib_send_sys_reset: FEATURE_SET only to connected configured boards and before SYS_ENABLE, GO to every connected track output, then every configured initial point/signal/peripheral aspect and train function exactly once (C09 encoding), nothing for absent boards - also when the switch-on answer is lost / reports OFF and when a board is reported lost during start-up',
@@ -47,7 +47,7 @@ CHECKS = {
     'C04': ('reference flow-control model with the stall set over address prefixes compared with the wire at a checkpoint after every step (nested stalls in both orders, repeated notices, unstall without stall, budget interaction incl. leftovers answered during a stall, virtual time passing); stress variant with sender threads after a processed stall notice (asan+tsan)',
             'reference model vlib/flow.py; a stall notice counts from the quiescent point after it was fed',
             'runtime monitoring: reference-model oracle over recorded wire/uplink history + stress under TSan'),
-    'C02': ('reference receiver decoder applied to the same corrupted byte stream decides which packets are good; delivered messages (debug-mode queue) must equal them in order, once; four chunkings incl. gaps after escapes; normal-mode histories (multi-message packets from senders on all address levels, judged through their state effect); round trip of the sender\'s own output',
+    'C02': ('reference receiver decoder applied to the same corrupted byte stream decides which packets are good; delivered messages (debug-mode queue) must equal them in order, once; packets up to the largest size, shared / lost delimiters, over-long packets; five chunkings incl. gaps after escapes and long silences inside packets; normal-mode histories (multi-message packets from senders on all address levels, judged through their state effect); round trip of the sender\'s own output',
             'reference decoder in vlib/model.py; packets <= 255 bytes (longer ones are C12); gcc ASan/UBSan',
             'runtime monitoring: reference-decoder oracle over fed byte streams vs. delivered messages + ASan/UBSan'),
     'C03': ('exact reference flow-control model for clean single-submitter histories compared with the wire at every checkpoint (budget, held FIFO, release after answers and after expiry under virtual time; histories mixing stall notices with budget deferral); two-sided-safe lower bound on outstanding bytes for duplicated/out-of-order answers and for sender threads racing the receiver (asan+tsan)',
@@ -56,13 +56,13 @@ CHECKS = {
     'C06': ('destination table (README + statement) vs. where each of all 256 type codes is found (message/error/intern queue or consumed) in both modes; queue bound/drop-oldest/FIFO model at fill levels around 128; user-queue messages arriving during the start-up dialogue; exactly-once over 1-8 reader threads racing the receiver (asan with LSan, tsan)',
             'destination table vlib/uplink.py; MSG_VENDOR and undocumented booster states accept any single destination; intern queue read through bidib_read_intern_message',
             'runtime monitoring: routing/queue-model oracle over drained queues + ASan/LSan/TSan'),
-    'C01': ('strict reference decoder over everything handed to write_n, multiset/order equality with the reference encoding of every accepted call, capacity bound; sequential (debug), every capacity 0..255 and the staging-buffer boundary (normal mode), concurrent senders with auto-flush under asan+tsan, directed preemption of a sender / flush',
+    'C01': ('strict reference decoder over everything handed to write_n, multiset/order equality with the reference encoding of every accepted call, capacity bound; sequential (debug), every capacity 0..255, capacities re-announced in mid-session, a debug session after a session with a larger capacity and the staging-buffer boundary (normal mode), concurrent senders with auto-flush under asan+tsan, directed preemption of a sender / flush',
             'reference codec (bitwise CRC) and spec table in vlib/; simulated bus answers every request; gcc ASan/UBSan/TSan',
             'runtime monitoring: reference-decoder oracle over recorded wire bytes + ASan/UBSan/TSan'),
-    'C05': ('per-node sequence-number oracle over the decoded wire under 2-16 sender threads, budget deferral released by the receiver thread, 255->1 wrap, lock-level perturbation, asan+tsan; directed two-thread sweep over every scheduling point of a send; the workloads of C03/C04/C09/C15/C16/C19/C20 (library-internal submitters, several sessions) judged per session',
+    'C05': ('per-node sequence-number oracle over the decoded wire under 2-16 sender threads, budget deferral released by the receiver thread, 255->1 wrap, lock-level perturbation, asan+tsan; a peer thread sending every uplink type in normal mode; directed sweeps over every scheduling point of a send and of the receiver while it releases held messages; the workloads of C03/C04/C09/C15/C16/C19/C20 (library-internal submitters, several sessions) judged per session',
             'reference decoder; perturbation at every lock operation via link-time wrappers; schedules are sampled, not enumerated',
             'runtime monitoring: ordering oracle over recorded wire history under stress + TSan'),
-    'C18': ('boundary sweep of every public bidib_send_* function against an independent spec table (header docs + bidib_messages.h): decoded wire after each call, ASan/UBSan on exact-size argument buffers (mixed content incl. zero bytes); re-entrancy sweep: every function called by two threads with different arguments, one paused at its first scheduling points',
+    'C18': ('boundary sweep of every public bidib_send_* function against an independent spec table (header docs + bidib_messages.h): decoded wire after each call, ASan/UBSan on exact-size argument buffers (mixed content incl. zero bytes, empty buffers also as NULL); re-entrancy sweep: every function called by two threads with different arguments, one paused at its first scheduling points',
             'spec table vlib/spec_lowlevel.py; gcc ASan/UBSan red zones (512 B); reference decoder; low-level debug mode session',
             'runtime monitoring: spec-table oracle over decoded wire + ASan/UBSan'),
 }
